@@ -4,7 +4,7 @@
    uint256.UnmarshalSSZ, little-endian - is not (C06_le_not_monotone) and the code's instance violates the invariant
    (C06_le_instance_refuted; known finding, the little-endian radius bytes are pinned by TestPrune).
    inRange: repaired (fix C06-inrange-xor-distance), C06_in_range_rule; the old rule is refuted in C06_in_range_logdist_refuted. *)
-From Shisui Require Import Base.Bytes Gen.K_storage Model.Storage Proofs.Storage.
+From Shisui Require Import Base.Bytes Gen.K_storage Model.Storage Model.StorageConc Proofs.Storage Proofs.StorageConc.
 
 (* at all times of every history (restarts and crashes included) every retained item lies within the advertised radius *)
 Theorem C06_retained_within_radius : forall (V : Type) (vlen : V -> N) (vhead8 : V -> res N) (dec : bytes -> N) cm pp nd ops y,
@@ -34,6 +34,47 @@ Theorem C06_put_radius : forall (V : Type) (vlen : V -> N) (vhead8 : V -> res N)
   put vlen dec s id v = Ok (s', r, bs) -> RInv dec s' /\ rad s' <= rad s.
 Proof. exact @put_rinv. Qed.
 Print Assumptions C06_put_radius.
+
+(* ---- the same clauses over CONCURRENT histories (small-step machine of Model/StorageConc.v: N goroutines, any
+   scheduler, Put split at its shared accesses; the radius check is the first step INSIDE the lock, as the code has it):
+   whenever nobody is inside Put - in particular after every schedule has run to the end - every retained item is
+   within the radius and the radius has not grown ... *)
+Theorem C06_conc_retained_within_radius : forall (V : Type) (vlen : V -> N) (vhead8 : V -> res N) (dec : bytes -> N) Q
+    (y0 : sys (V:=V)) work sched,
+  good dec -> SInv vlen Q y0 -> RInv dec (mem y0) ->
+  Forall (fun p => valid_id (node (mem y0)) (fst p)) (concat work) ->
+  let c := exec vlen dec true false (start (mem y0) work) sched in
+  lock c = None -> RInv dec (sh c) /\ rad (sh c) <= rad (mem y0).
+Proof. exact @conc_radius_inv. Qed.
+Print Assumptions C06_conc_retained_within_radius.
+
+(* ... and between any two such points of one execution the radius only shrinks *)
+Theorem C06_conc_radius_antitone : forall (V : Type) (vlen : V -> N) (vhead8 : V -> res N) (dec : bytes -> N) Q
+    (y0 : sys (V:=V)) work sched1 sched2,
+  good dec -> SInv vlen Q y0 -> RInv dec (mem y0) ->
+  Forall (fun p => valid_id (node (mem y0)) (fst p)) (concat work) ->
+  let c1 := exec vlen dec true false (start (mem y0) work) sched1 in
+  let c2 := exec vlen dec true false c1 sched2 in
+  lock c1 = None -> lock c2 = None -> rad (sh c2) <= rad (sh c1).
+Proof. exact @conc_radius_antitone. Qed.
+Print Assumptions C06_conc_radius_antitone.
+
+(* with the radius check made BEFORE Lock() the clauses fail (big-endian decoder, so this is not the little-endian
+   finding): goroutine B passes the check and waits, A prunes and shrinks the radius to 3, B stores at distance 200 *)
+Theorem C06_conc_check_outside_lock_refuted :
+  let c := exec nv_len be_to_N true true (start chk_s0 chk_work2) chk_sched2 in
+  quiescent c = true /\ lock c = None /\ rad (sh c) = 3 /\
+  In (key32 x00 xc8, 17) (kv (sdb (sh c))) /\ rad (sh c) < be_to_N (key32 x00 xc8).
+Proof. exact check_outside_lock_refuted. Qed.
+Print Assumptions C06_conc_check_outside_lock_refuted.
+
+(* and a later prune then makes the advertised radius grow (3 -> 200) *)
+Theorem C06_conc_check_outside_lock_radius_grows :
+  let c1 := exec nv_len be_to_N true true (start chk_s0 chk_work3) (firstn 13 chk_sched3) in
+  let c2 := exec nv_len be_to_N true true (start chk_s0 chk_work3) chk_sched3 in
+  lock c1 = None /\ rad (sh c1) = 3 /\ quiescent c2 = true /\ rad (sh c2) = 200.
+Proof. exact check_outside_lock_radius_grows. Qed.
+Print Assumptions C06_conc_check_outside_lock_radius_grows.
 
 (* the reading the property fixes is monotone, the reading the code uses is not *)
 Theorem C06_be_good : good be_to_N.
